@@ -76,7 +76,7 @@ CHECKS.update({
          "DESIGN.md §5 C19; notes/C19-C20.md",
          "bounded-exhaustive enumeration of posting shapes (pure function, full product) vs reference layout model"),
  "C20": ("model_checking",
-         "Explicit-state BFS to the fixpoint over (golden file absent | one of the content alphabet, UPDATE_GOLDEN in {unset, empty, 1, 0, non-UTF-8}, Golden handle none | snapshot) driving the REAL okane_golden::Golden in a private scratch directory inside a single worker (the env var is process-global), plus every raw action sequence to depth 4 (thorough 5); each transition re-creates the object by replaying the action history and checks new()/assert() results, file bytes, file mtime, directory listing and directory mtime against RefGolden (file and directory are aged first, so a rewrite with identical bytes is caught).",
+         "Explicit-state BFS to the fixpoint over (golden file absent | one of the content alphabet, UPDATE_GOLDEN in {unset, empty, 1, 0, non-UTF-8}, Golden handle none | snapshot) driving the REAL okane_golden::Golden in a private scratch directory inside a single worker (the env var is process-global), plus every raw action sequence to depth 4 (thorough 5), plus goldens that cannot be read as text (invalid UTF-8, Latin-1, a directory at the path) x 5 environment values x every `got`; each transition re-creates the object by replaying the action history and checks new()/assert() results, file bytes, file mtime, directory listing and directory mtime against RefGolden (file and directory are aged first, so a rewrite with identical bytes is caught).",
          "Trusted: RefGolden (assert succeeds iff got == content with CRLF->LF; writes iff UPDATE_GOLDEN non-empty; missing file is an error unless updating). A non-UTF-8 UPDATE_GOLDEN value and stale handles after an external file change are DON'T-CARE.",
          "DESIGN.md §5 C20; notes/C19-C20.md",
          "explicit-state BFS over (file x environment x handle) states with the real object re-executed per transition"),
